@@ -1171,6 +1171,10 @@ func (ev *Evaluator) call(c *grl.Call) (Val, error) {
 				}
 				return BoolV(true), nil
 			}
+		case "BasePlus":
+			if len(args) == 1 && args[0].K == VInt {
+				return IntV(f.BI + args[0].I), nil
+			}
 		case "TagIs":
 			if len(args) == 1 && args[0].K == VString {
 				return BoolV(f.S == args[0].S), nil
